@@ -469,6 +469,11 @@ func runBatch(h Harness, tier string, seed uint64, runsOverride, budgetS int) in
 			continue
 		}
 		path, confirmed, note := minimiseAndWrite(h, tier, seed, f)
+		for alt := 1; !confirmed && alt < len(fl) && alt < 3; alt++ {
+			// the first run of the class did not reproduce in fresh processes: try the next ones before giving up
+			f = fl[alt]
+			path, confirmed, note = minimiseAndWrite(h, tier, seed, f)
+		}
 		if !confirmed {
 			ev.inconclusive["unreproducible"]++
 			fmt.Fprintf(os.Stderr, "UNREPRODUCIBLE failure in run %d (%s): %s\n", f.idx, c, note)
@@ -558,7 +563,13 @@ func minimiseAndWrite(h Harness, tier string, seed uint64, f failure) (string, b
 		full = append([]int{}, ch.Trace()...)
 	}
 	if !first.Failed() || first.Class() != f.res.Class() {
-		return "", false, fmt.Sprintf("re-run from seed gave class %q instead of %q", first.Class(), f.res.Class())
+		// the decision trace does not depend on the verdict; a verdict that is not a function of the seed
+		// (a run-to-run difference of the code under test, C05) gets its chance as a replay, which repeats
+		// the compared runs
+		r, _ := exec(full)
+		if !r.Failed() || r.Class() != f.res.Class() {
+			return "", false, fmt.Sprintf("re-run from seed gave class %q instead of %q", first.Class(), f.res.Class())
+		}
 	}
 
 	budget := meta.ShrinkBudget
